@@ -54,7 +54,12 @@ class C10(Prop):
             for o in h["obs"]:
                 o["backend_cookies"] = o.get("backend_cookies") or []
                 o["client_set"] = o.get("client_set") or []
-        return {"histories": hs, "conc": conc, "races": races, "fatal": out[-3000:] if fatal else ""}
+        fatal_txt = out[-3000:] if fatal else ""
+        rc, out, p, dt = C.go_test_overlay(ctx.work, "./agent/sessions/", "TestVerifC10Interim$", OVERLAY, "c10i.jsonl", ctx.seed, ctx.tier, timeout=600)
+        interim = [r for r in C.read_jsonl(p) if r.get("kind") == "interim"]
+        if rc != 0 or not interim:
+            raise RuntimeError("C10 interim-response harness did not run: rc=%s\n%s" % (rc, out[-2000:]))
+        return {"histories": hs, "conc": conc, "races": races, "fatal": fatal_txt, "interim": interim}
 
     @staticmethod
     def model_uses(h):
@@ -89,6 +94,22 @@ class C10(Prop):
             res.append(("concurrent:crash", "the handler crashed under concurrent requests", {"output": obs["fatal"]}))
         for sig, txt in obs["races"]:
             res.append((sig, "the race detector reported a data race in the session handler", {"report": txt}))
+        for r in obs.get("interim") or []:
+            b = r["backend"]
+            rp = {"driver": "TestVerifC10Interim: client -> SessionHandler -> httputil.ReverseProxy -> raw backend answering %s then %s" % (b.get("interim") or "nothing", b["status"]), "observed": r}
+            if r.get("err"):
+                res.append(("interim:request-failed", r["err"], rp))
+                continue
+            name = (b.get("cookie") or "").split("=")[0]
+            sig = "interim" if b.get("interim") else "no-interim"
+            if r["status"] != b["status"]:
+                res.append(("status-changed-by-session-handler:" + sig, "the backend answered %s (after informational %s), the client received %s" % (b["status"], b.get("interim"), r["status"]), rp))
+            if name and name in (r.get("client_set_cookie_names") or []):
+                res.append(("backend-cookie-leaked-to-client:" + sig, "the backend's cookie %s reached the client" % name, rp))
+            if not r.get("session_issued"):
+                res.append(("no-session-cookie-issued:" + sig, "a cookie-less request was answered without a session cookie", rp))
+            elif name and not any(c.startswith(name + "=") for c in (r.get("backend_saw_on_second_request") or [])):
+                res.append(("session-cookies-lost-within-window:" + sig, "the cookie %s set by the backend is not sent back to it on the next request of the session" % name, rp))
         for r in obs["conc"]:
             if r.get("cookies_lost_at_first_use"):
                 res.append(("concurrent:cookie-lost-at-first-use-of-session", "%d cookies set by the backend while several requests used a not-yet-cached session at once are missing from the session afterwards (%s)" % (
